@@ -10,6 +10,9 @@ The reference identity is computed from the *built values* by `canon` (boring Py
   L (loose form)   — as S, but Python-equal numbers collapsed, pandas dtypes dropped, data under a mask dropped,
                      zero counts of a Counter dropped
   must-equal  = same S (and no NaN / identity-compared object inside);  must-differ = different L;  else unconstrained.
+
+In violation texts `objarr([x, y])` stands for a 1-D object ndarray with the cells x, y
+(`a = np.empty(2, dtype=object); a[0] = x; a[1] = y`), `deque`/`defaultdict`/`Counter`/`OrderedDict` are from collections.
 """
 from __future__ import annotations
 
@@ -103,9 +106,7 @@ class Unh:
 
     def __hash__(self):
         return hash(self.v)  # TypeError: unhashable type: 'list'
-
-    def __repr__(self):
-        return f"Unh({self.v[0]!r})"
+    # deliberately no __repr__: a fallback that keys on str(obj) must show up as a miss between two equal builds
 
 
 USER = {"WithEq": WithEq, "NoEq": NoEq, "Unh": Unh}
@@ -401,14 +402,14 @@ def _hashable_desc(d):
     return tag(d) in HASHABLE_TAGS and all(_hashable_desc(c) for c in children(d))
 
 
-def _level(P, H, HK, HKM, V, O):  # noqa: N803
-    """containers of <= 2 elements over the given child pools"""
+def _level(P, H, HK, HKM, V, O, full=True):  # noqa: N803
+    """containers of <= 2 elements over the given child pools; full=False: fewer kinds of 1-element wrappers"""
     out = []
     for kind in ("tuple", "list"):
         out += [[kind, [x]] for x in P]
-    out += [["deque", [x], m] for m in (None, 2) for x in P]
+    out += [["deque", [x], m] for m in ((None, 2) if full else (None,)) for x in P]
     hp = [x for x in P if _hashable_desc(x)]
-    for kind in ("set", "frozenset"):
+    for kind in (("set", "frozenset") if full else ("frozenset",)):
         out += [[kind, [x]] for x in hp]
     for kind in ("tuple", "list"):
         out += [[kind, [x, y]] for x in H for y in H]
@@ -422,8 +423,9 @@ def _level(P, H, HK, HKM, V, O):  # noqa: N803
     out += [["Counter", [[k1, _1], [k2, _1]]] for k1 in HKM for k2 in HKM if k1 != k2]
     for shape in ((2,), (2, 1), (1, 2)):
         out += [Arr("object", shape, x, y) for x in O for y in O]
-    out += [[cls, x] for cls in ("NoEq", "Unh") for x in P]
-    out += [["WithEq", x] for x in hp if tag(x) != "NoEq" and not any(tag(c) == "NoEq" for c in children(x))]
+    out += [[cls, x] for cls in (("NoEq", "Unh") if full else ("Unh",)) for x in P]
+    if full:
+        out += [["WithEq", x] for x in hp if tag(x) != "NoEq" and not any(tag(c) == "NoEq" for c in children(x))]
     return out
 
 
@@ -477,7 +479,7 @@ def universe(maxdepth):
     if maxdepth >= 2:
         out = _closed(out + _level(out, H1, HK1, HKM1, V1, O1), 2)
     if maxdepth >= 3:
-        out = _closed(out + _level(out + P2, H2, HK2, HKM2, V2, O2), 3)
+        out = _closed(out + _level(out + P2, H2, HK2, HKM2, V2, O2, full=False), 3)
     _UNIVERSE[maxdepth] = out
     return out
 
@@ -669,14 +671,21 @@ def keyof(v):
 
 
 def exc_cause(e):
-    """'sorted-unorderable' iff a TypeError 'a < b not supported' escaped from a sorted(...) call in pipefunc/cache.py"""
-    if isinstance(e, TypeError) and "not supported between instances of" in str(e):
-        for fr in reversed(traceback.extract_tb(e.__traceback__)):
-            fn = fr.filename.replace("\\", "/")
-            if "/pipefunc/" in fn and "/vmc/" not in fn:
-                return "sorted-unorderable" if "sorted(" in (fr.line or "") else "unorderable-elsewhere"
+    """'sorted-unorderable' iff a TypeError "'<' not supported ..." was raised directly under a pipefunc frame whose code
+    calls sorted() (the builtin has no Python frame of its own); decided on code objects, not on source text"""
     if isinstance(e, pc.UnhashableError):
         return "UnhashableError"
+    if isinstance(e, TypeError) and "not supported between instances of" in str(e):
+        tb, last = e.__traceback__, None
+        while tb is not None:
+            last = tb
+            tb = tb.tb_next
+        if last is not None:
+            code = last.tb_frame.f_code
+            fn = code.co_filename.replace("\\", "/")
+            if "/pipefunc/" in fn and "/vmc/" not in fn and "sorted" in code.co_names:
+                return "sorted-unorderable"
+        return "unorderable-elsewhere"
     return "other"
 
 
